@@ -968,12 +968,176 @@ def probe_flags(tvh):
     return flags
 
 
+# ------------------------------------------------------------------------------------------
+# typed values over the type grammar: serde calls of derive, every route, every route read back
+# ------------------------------------------------------------------------------------------
+
+def typed_value_stream(ctx, tvh, flags):
+    """random (type, value) pairs of the grammar of Model/DeTyped.lean: `DynVal` in the harness makes the serde calls a
+    derived / std `Serialize` impl makes (validated against real derived types by the `dvc` cases), `serOf` in the model.
+    Oracles on the implementation: the serde calls are the ones an independent description here gives (`ser_of`); the
+    image / error-shape oracles of the dynamic stream; every route that succeeds reads back, through each matching
+    deserializer, to the value up to the benign identifications of `normDec`."""
+    import props.c07typed as ct
+    from props.c13typed import enc
+    rng = ctx.rng
+    quick = ctx.tier == "quick"
+    kind = "rtt" + flags
+    hist = {}
+
+    # ---- DynVal against serde_derive's actual output (permanent) -----------------------------
+    nseeds = 40 if quick else 500
+    dv = [(tg, ty, f"dvc {tg} {enc(ty)} {rng.getrandbits(62)}") for tg, ty in ct.DERIVED.items() for _ in range(nseeds)]
+    rc, dv_out, dv_err = run_lines(tvh, "c07", [x[2] for x in dv])
+    dv_bad = []
+    derived_cases = []
+    private_key = 0
+    if len(dv_out) != len(dv):
+        dv_bad.append((f"rc={rc} lines={len(dv_out)}/{len(dv)}", dv_err[-300:]))
+    for (tg, ty, line), o in zip(dv, dv_out):
+        f = fields_of(o)
+        if f.get("same") != "1" or f.get("wt") != "1" or "dec" not in f:
+            dv_bad.append((line, o[:600]))
+            continue
+        dd = ct.parse_dec(f["dec"])
+        if any(tt[0] == "M" and any(kk == FIELD for kk, _ in x[1]) for tt, x in ct.walk_dec(ty, dd)):
+            # the key pool of harness/src/c13.rs holds the private date-time key (C13's known finding F24: such a table
+            # reads as a date-time): checked against derive above, not a value the C07 oracles are stated for
+            private_key += 1
+            continue
+        derived_cases.append((ty, dd, "derived " + tg, f["sval"]))
+    ctx.oblige("DynVal = serde_derive / std: the recorded serde calls (names, order, length hints, variant indices) of a real "
+               "derived value and of DynVal{ty, to_dec(value)} are equal", not dv_bad, f"{len(dv_bad)} differ; first: {dv_bad[:1]}")
+
+    # ---- cases -------------------------------------------------------------------------------
+    cases = [(t, d, "fixed", None) for t, d in ct.FIXED] + derived_cases
+    ntypes = 1500 if quick else 20000
+    for j, t in enumerate(ct.gen_types(rng, hist, ntypes)):
+        g = ct.ValueGen(rng, hist, hostile=[0.0, 0.02, 0.05, 0.2][j % 4])
+        for _ in range(2 if quick else 3):
+            cases.append((t, g.value(t), "random", None))
+    lines = [f"{kind} {enc(t)} {ct.show_dec(d)}" for t, d, _, _ in cases]
+    seen = set()
+    uniq = []
+    for c, ln in zip(cases, lines):
+        if ln not in seen:
+            seen.add(ln)
+            uniq.append((c, ln))
+    cases, lines = [c for c, _ in uniq], [ln for _, ln in uniq]
+    impl, model = run_pair(ctx, tvh, "c07", lines)
+
+    # ---- oracles + correspondence ------------------------------------------------------------
+    classes = {}
+    unclassified = 0
+    ndis = 0
+    first = None
+    nsval = 0
+    sval_bad = []
+    nback = 0
+    nroutes_ok = collections.Counter()
+    root_kinds = collections.Counter()
+    ident = collections.Counter()
+    nontriv = set()
+
+    def report(t, d, ln, origin, f, route, text, cls):
+        nonlocal unclassified
+        if cls is not None:
+            classes.setdefault(cls, []).append((ln, t, d, route, text, origin))
+            return
+        unclassified += 1
+        if unclassified <= 25:
+            ctx.violation(f"typed value ({origin}) {ct.readable(t, d)}: route {route}: {text}",
+                          {"mode": "c07", "case": ln, "type": enc(t), "value": ct.show_dec(d), "route": route, "text": text_of(f, route[:2]),
+                           "impl": {x: f.get(x) for x in ROUTES + ct.READBACK}, "witness": ln})
+
+    for (t, d, origin, derived_sval), ln, i, m in zip(cases, lines, impl, model):
+        root_kinds[t[0]] += 1
+        if i.startswith("PANIC") or i in ("CRASH", "ill-typed", "bad-op"):
+            ctx.violation(f"typed value ({origin}) {ct.readable(t, d)}: {i[:120]}", {"mode": "c07", "case": ln, "impl": i, "model": m, "witness": ln})
+            continue
+        f = fields_of(i)
+        fm = fields_of(m)
+        sv = ct.ser_of(t, d)
+        want_toks = []
+        toks(sv, want_toks)
+        # (a) the serde calls: independent description, and (derived cases) the derive output itself
+        nsval += 1
+        if f.get("sval") != ",".join(want_toks) or (derived_sval is not None and derived_sval != f.get("sval")):
+            sval_bad.append((ln, f.get("sval"), ",".join(want_toks)))
+        # (b) image and error-shape oracles of the dynamic stream
+        route_cls = {}
+        for bad in judge(sv, f):
+            cls = classify(sv, f, bad)
+            route_cls[bad[0]] = cls
+            report(t, d, ln, origin, f, bad[0], bad[2], cls)
+        # (c) every successful route reads back
+        none_map = ct.has_none_map_value(t, d)
+        for key in ct.READBACK:
+            r = key[:2]
+            if not f.get(r, "").startswith("ok:"):
+                continue
+            nroutes_ok[r] += 1
+            cf = ct.canon_float if r in ("ts", "tp", "es", "ep") else (lambda b: b)
+            benign = ct.show_dec(ct.norm_dec(cf, t, d, drop=False))
+            got = f.get(key)
+            nback += 1
+            if got == benign:
+                if benign != ct.show_dec(d):
+                    ident["identified (NaN / f32 NaN / default field)"] += 1
+                continue
+            full = ct.show_dec(ct.norm_dec(cf, t, d, drop=True))
+            if none_map and got == full:
+                report(t, d, ln, origin, f, key, "a map entry whose value is None does not come back", F33)
+            elif r in ("vt", "tt") and route_cls.get(r) == F16:
+                report(t, d, ln, origin, f, key, f"reads back as {got}", F16)
+            else:
+                report(t, d, ln, origin, f, key, f"reading the result back into the same type gives {got}, the value is {benign}", None)
+        # correspondence model = implementation, every field
+        keys = ROUTES + ct.READBACK + ["sval"]
+        diff = [k for k in keys if f.get(k) != fm.get(k)]
+        for r in ("ts", "tp", "es", "ep"):
+            mt = fm.get(r + ".x")
+            if mt not in (None, "n/a", "-") and f.get(r + ".x", "-") != mt:
+                diff.append(r + ".x")
+        if diff:
+            ndis += 1
+            if first is None or len(ln) < len(first[0]):
+                first = (ln, diff[0], f.get(diff[0]), fm.get(diff[0]))
+        if sum(1 for _ in ct.walk_dec(t, d)) >= 3:
+            nontriv.add(ln)
+
+    for cls, items in classes.items():
+        items.sort(key=lambda it: len(it[0]))
+        ln, t, d, route, text, origin = items[0]
+        ctx.violation(f"{cls[6:]} — typed value {ct.readable(t, d)}: route {route}: {text}; {len({it[0] for it in items})} cases of this class among the typed values",
+                      {"mode": "c07", "case": ln, "type": enc(t), "value": ct.show_dec(d), "route": route, "instances": len({it[0] for it in items}),
+                       "other_instances": [it[0] for it in items[1:4]], "witness": cls})
+    ctx.oblige("serde calls of DynVal = the independent description of derive / std Serialize (tools/props/c07typed.py ser_of)", not sval_bad,
+               f"{len(sval_bad)} differ; first: {sval_bad[:1]}")
+    ctx.oblige("correspondence c07 typed values: serOf tokens, every route's verdict and tree, every decoded Dec — model driver = implementation",
+               ndis == 0, f"{ndis} disagreements; shortest: {first}")
+    return {
+        "typed_value_cases": len(lines), "typed_value_distinct_nontrivial": len(nontriv),
+        "typed_value_rule": f"{len(ct.FIXED)} fixed witnesses (every identification of normDec, the refused shapes, F30, F33) + {len(derived_cases)} values of the derived types of the harness "
+                            f"({', '.join(ct.DERIVED)}; {nseeds} seeds each, first checked against the derive output itself) + {ntypes} random types of the grammar x {2 if quick else 3} random well-typed values "
+                            "(options inside structs / maps / sequences, Some(None), units, u64 beyond i64::MAX, NaNs with sign and payload, empty containers, enums in every shape and position, toml::Value leaves); "
+                            "non-trivial = a value of >= 3 nodes, distinct by case line",
+        "typed_value_samples": [lines[0], lines[len(ct.FIXED)][:300], lines[-1][:300]],
+        "typed_value_root_kinds": dict(root_kinds), "typed_value_shapes": dict(sorted(hist.items())),
+        "typed_value_routes_ok": dict(nroutes_ok), "typed_value_readbacks_compared": nback, "typed_value_identifications": dict(ident),
+        "typed_value_serde_call_traces_compared": nsval, "typed_value_dynval_vs_derive": len(dv), "typed_value_dynval_vs_derive_differ": len(dv_bad),
+        "typed_value_derived_with_private_key_as_map_key_not_replayed": private_key,
+        "typed_value_defect_classes": {k: len({it[0] for it in v}) for k, v in classes.items()}, "typed_value_unclassified_failures": unclassified,
+        "typed_value_disagreements": ndis,
+    }
+
+
 def run(ctx):
     translate(ctx)
     mods = ["TomlVerif.Props.C07", "driver"]
     lake_build(ctx, mods, {"TomlVerif.Props.C07": "property theorems"})
     audit(ctx, "TomlVerif.Props.C07", "TomlVerif/Props/C07.lean")
-    extra_props(ctx, ["C07Text", "C07RoundTrip"])
+    extra_props(ctx, ["C07Text", "C07RoundTrip", "C07RoundTripMore"])
     if ctx.tier == "thorough":
         leanchecker(ctx, "TomlVerif.Props.C07")
     tvh = cargo_build(ctx)
@@ -1134,13 +1298,14 @@ def run(ctx):
                        "text": text_of(sf, r), "impl": {x: sf.get(x) for x in ROUTES}, "instances": len(items),
                        "other_instances": [it[0] for it in items[1:6]], "witness": cls})
 
+    typed_cov = typed_value_stream(ctx, tvh, flags)
     ctx.oblige("correspondence c07: model driver = implementation on every route of every case", ndis == 0,
                f"{ndis} disagreements; shortest: {first}")
     if ctx.broken and not ctx.violations:
         for n, d in ctx.broken:
             ctx.violation(f"obligation no longer checks: {n}", {"unchecked": n, "detail": d[:1500], "searched": f"{len(tcases)} typed + {len(dlines)} dynamic cases against the image, error-shape and round-trip oracles"}, concrete=False)
     ctx.cov.update({
-        "evaluations": len(tcases) + len(all_lines), "typed_cases": len(tcases), "dynamic_cases": len(dlines),
+        "evaluations": len(tcases) + len(all_lines) + typed_cov["typed_value_cases"] + typed_cov["typed_value_dynval_vs_derive"], "typed_cases": len(tcases), "dynamic_cases": len(dlines),
         "distinct_nontrivial": len(nontriv),
         "rule": f"{len(TYPES)} declared derive(Serialize, Deserialize) types x {per_type}+8 seeds, values built in the harness from the seed (adversarial string / float / date-time pools); "
                 f"{n_good} random serde values with an image + {n_bad} with unsupported shapes injected (None/unit in sequences, bad keys, u64 > i64::MAX, 128-bit, malformed date-time structs, duplicate keys) "
@@ -1150,7 +1315,9 @@ def run(ctx):
         "typed_per_type": dict(hist_type), "none_map_values_omitted": none_map_values, "malformed_datetime_struct_probes_outside_the_oracles": malformed_dt,
         "defect_classes": {k: len(v) for k, v in classes.items()}, "unclassified_failures": unclassified,
         "traces_validated_against_impl": len(all_lines), "disagreements": ndis, "route_texts_compared_byte_for_byte": ntexts,
+        **typed_cov,
         "oracles": ["an ok route's text re-parses (toml and toml_edit agree) and means exactly the documented image of the value (computed here from the value, not by the model)",
                     "all ok routes therefore agree", "an error only for: no image (None/unit misplaced, non-string key, beyond i64, bad date-time), non-table root, struct/tuple variant at the root for toml::to_string*/Table::try_from",
-                    "typed: from_str (both crates) / from_document / try_into give back the value (NaN = NaN, every other float by bits)"],
+                    "typed: from_str (both crates) / from_document / try_into give back the value (NaN = NaN, every other float by bits)",
+                    "typed values of the type grammar: the recorded serde calls are the ones derive / std make; every ok route read back through toml::de, toml_edit::de, from_document, Value / Table deserializers gives the value up to normDec's benign identifications (a dropped None map value = F33)"],
     })
